@@ -283,6 +283,7 @@ class Interp:
         self.builtins = self._mk_builtins()
         self.np = self._mk_np()
         self.call_hooks = {}  # qualname -> python function(interp, args, kwargs) overriding a package function
+        self.eq_oracle = None  # optional: Poly difference -> True (zero) / False (non-zero) / None
         self.order_oracle = None  # optional: Poly difference -> sign (-1/0/1) or None; decides comparisons of symbolic integers
         self.roundup_hook = None  # optional: (left poly, right poly) of a symbolic `&` -> value for the round-up idiom (x + a - 1) & -a
 
@@ -394,6 +395,8 @@ class Interp:
                                 return _c.defaultdict(fac, *a, **k)
 
                             found = Builtin("defaultdict", _dd)
+                        elif st.module == "inspect" and al.name == "isclass":
+                            found = self.builtins["isclass"]
                         elif st.module == "collections" and al.name == "namedtuple":
                             def _nt(tname, fields, defaults=None, **_k):
                                 fl_ = fields.replace(",", " ").split() if isinstance(fields, str) else list(self.iterate(fields))
@@ -942,7 +945,10 @@ class Interp:
             self.setattr(o, t.attr, v)
         elif isinstance(t, ast.Subscript):
             c = self.eval(t.value, fr)
-            k = self.eval(t.slice, fr)
+            if isinstance(t.slice, ast.Slice):
+                k = slice(*[(self.eval(x, fr) if x is not None else None) for x in (t.slice.lower, t.slice.upper, t.slice.step)])
+            else:
+                k = self.eval(t.slice, fr)
             if isinstance(c, SArr):
                 if isinstance(k, int):
                     k = (k,)
@@ -951,6 +957,8 @@ class Interp:
                 c[k] = v
             elif isinstance(c, Opaque):
                 self.effects.append(Effect("setitem", target=c.tag, key=k, value=v))
+            elif isinstance(c, Obj) and self.getattr(c, "__setitem__", default=None) is not None:
+                self.call(self.getattr(c, "__setitem__"), [k, v], {})
             else:
                 raise AnalysisError(f"peval: subscript store on {c!r}")
         elif isinstance(t, ast.Starred):
@@ -1108,6 +1116,8 @@ class Interp:
                     return c[slice(lo, hi, stp)]
                 if isinstance(c, Opaque):
                     return Opaque(f"{c.tag}[{lo}:{hi}]")
+                if isinstance(c, Obj) and self.getattr(c, "__getitem__", default=None) is not None:
+                    return self.call(self.getattr(c, "__getitem__"), [slice(lo, hi, stp)], {})
                 raise AnalysisError(f"peval: slice of {c!r}")
             k = self.eval(e.slice, fr)
             return self.subscript(c, k, e)
@@ -1299,6 +1309,10 @@ class Interp:
                 sg = self.order_oracle(d)
                 if sg is not None:
                     return {ast.Eq: sg == 0, ast.NotEq: sg != 0, ast.Lt: sg < 0, ast.LtE: sg <= 0, ast.Gt: sg > 0, ast.GtE: sg >= 0}[type(op)]
+            if isinstance(op, (ast.Eq, ast.NotEq)) and getattr(self, "eq_oracle", None) is not None:
+                r = self.eq_oracle(d)
+                if r is not None:
+                    return r if isinstance(op, ast.Eq) else not r
             if abs(d.const_value()) >= 2 ** 62 and isinstance(op, (ast.Eq, ast.NotEq)):
                 # assumption: positions/sizes are far below 2**62, so they never equal the reserved null
                 return isinstance(op, ast.NotEq)
@@ -1323,6 +1337,10 @@ class Interp:
             d = pa - pb
             if d.is_const():
                 return d.const_value() == 0
+            if getattr(self, "eq_oracle", None) is not None:
+                r = self.eq_oracle(d)
+                if r is not None:
+                    return r
             return Unk(f"{a!r} == {b!r}")
         if isinstance(a, (tuple, list)) and isinstance(b, (tuple, list)):
             if type(a) is not type(b):
@@ -1578,6 +1596,7 @@ class Interp:
             "tuple": tuple,
             "list": list,
             "dict": dict,
+            "slice": slice,
             "vars": Builtin("vars", lambda o: I.getattr(o, "__dict__")),
             "set": set,
             "str": str,
@@ -1649,10 +1668,34 @@ class Interp:
 
         DT = {"float64": 8, "float32": 4, "int64": 8, "uint64": 8, "int32": 4, "uint32": 4, "int16": 2, "uint16": 2, "int8": 1, "uint8": 1, "complex64": 8, "complex128": 16}
 
+        def _conv(n, v):
+            # a numpy scalar made from a concrete number behaves as that number (of the dtype's kind)
+            if isinstance(v, bool) or not isinstance(v, (int, float)):
+                return Opaque(f"{n}({v!r})")
+            if n.startswith(("int", "uint")):
+                return int(v)
+            if n.startswith("float"):
+                return float(v)
+            return Opaque(f"{n}({v!r})")
+
         def dtype(n):
             if isinstance(n, Obj):
                 return n
-            return Obj("dtype", {"itemsize": DT[n], "name": n, "type": Builtin(f"{n}.type", lambda v=0: Opaque(f"{n}({v!r})")), "str": n}, name=f"dtype({n})")
+            return Obj("dtype", {"itemsize": DT[n], "name": n, "type": Builtin(f"{n}.type", lambda v=0: _conv(n, v)), "str": n}, name=f"dtype({n})")
+
+        def _anyall(x, red):
+            if isinstance(x, (bool, int, float)):
+                return bool(x)
+            if isinstance(x, Unk):
+                return x
+            if isinstance(x, (list, tuple)):
+                vals = [_anyall(y, red) for y in x]
+                if any(isinstance(y, Unk) for y in vals):
+                    return [y for y in vals if isinstance(y, Unk)][0]
+                return red(vals)
+            if isinstance(x, SArr) and x.sym is None:
+                return _anyall(x.flat(), red)
+            return Unk(f"np.{red.__name__}({x!r})")
 
         def _num1(fn, x):
             import math as _m
@@ -1678,6 +1721,8 @@ class Interp:
             "isnan": Builtin("np.isnan", lambda x: Unk(f"isnan({x!r})") if isinstance(x, (Sym, Opaque)) else x != x),
             "isinf": Builtin("np.isinf", lambda x: Unk(f"isinf({x!r})") if isinstance(x, (Sym, Opaque)) else abs(x) == float("inf")),
             "ndarray": Opaque("np.ndarray"),
+            "any": Builtin("np.any", lambda x: _anyall(x, any)),
+            "all": Builtin("np.all", lambda x: _anyall(x, all)),
             "ceil": Builtin("np.ceil", lambda x: _num1("ceil", x)),
             "floor": Builtin("np.floor", lambda x: _num1("floor", x)),
         }
